@@ -233,9 +233,36 @@ static void cs_probe_l3(void) {
 }
 
 /* Runs one step line "<item> [args]"; the items never keep pointers across steps. */
+static void cs_step_(char **tok, int n);
+/* Every step is a complete top-level use of the library: whatever protected blocks it entered have been left when it
+ * returns, so the handler chain of the context must be what it was before the step (a chain left pointing into a
+ * returned frame makes the next error jump into dead stack storage). */
 static void cs_step(char **tok, int n) {
+	ctx_t *c0 = core_get();
+	void *l0 = c0 ? (void *)c0->last : NULL;
+	cs_step_(tok, n);
+	ctx_t *c1 = core_get();
+	/* (a throw outside any block legitimately parks the chain at the context's own error slot until the message is fetched,
+	 * which puts it back to empty: both are top-level states) */
+	if (c0 != NULL && c0 == c1 && strcmp(tok[0], "REINIT") != 0 && (void *)c1->last != l0 && (void *)c1->last != (void *)&c1->error && c1->last != NULL) {
+		tr_printf("CHAIN %s left-changed\n", tok[0]);
+		c1->last = l0;		/* so that the rest of the script is still comparable */
+	}
+}
+static void cs_step_(char **tok, int n) {
 	const char *it = tok[0];
-	if (!strcmp(it, "EPSET")) {
+	if (!strcmp(it, "TWIST")) {
+		/* re-selection of the twist of the pairing curve in force (d / m), or a type that is neither (bad): the latter is
+		 * only scripted while no pairing layer is in force */
+		const char *w = n > 1 ? tok[1] : "bad";
+		int thrown = 0;
+		RLC_TRY {
+			ep2_curve_set_twist(!strcmp(w, "d") ? RLC_EP_DTYPE : !strcmp(w, "m") ? RLC_EP_MTYPE : 0);
+		} RLC_CATCH_ANY {
+			thrown = 1;
+		}
+		tr_printf("TWIST %s thrown=%d code=%d\n", w, thrown, err_get_code() != RLC_OK);
+	} else if (!strcmp(it, "EPSET")) {
 		int id = cs_curve_id(n > 1 ? tok[1] : "");
 		int thrown = 0;
 		RLC_TRY {
